@@ -506,16 +506,19 @@ func (fs *FS) begin(c *Call) {
 	}
 	h := c.H
 	if h != nil {
-		if h.Closes > 0 {
+		if h.Closes > 0 && c.Method != "Close" {
 			h.UsedAfterClose++
-			fs.viol("C05", "use-after-close", c.Method+"/"+h.CreatedBy, "%s on handle %d (%s, from %s) after its Close", c.Method, h.ID, c.Path, h.CreatedBy)
+			fs.viol("C05", "use-after-close", h.CreatedBy, "%s on handle %d (%s, from %s) after its Close", c.Method, h.ID, c.Path, h.CreatedBy)
 		}
 		if c.Method == "Close" && h.active > 0 {
 			fs.viol("C05", "close-during-call", h.CreatedBy, "Close on handle %d (%s) while %d call(s) on it are running", h.ID, c.Path, h.active)
 		}
 		h.active++
 		// coherence: a live, still-linked handle must resolve to its object
-		if !h.gone && h.pinned == nil && c.Method != "Renamed" && c.Method != "Close" {
+		// (only for read/write-class calls: those are excluded from renames by
+		// the contract, whereas a no-guarantee call such as StatFS may land
+		// between RenameAt and the Renamed notifications, when paths are in flux)
+		if !h.gone && h.pinned == nil && (class(c.Method) == 'R' || class(c.Method) == 'W') {
 			if got := h.resolve(); got != h.bound {
 				gi := uint64(0)
 				if got != nil {
@@ -833,8 +836,6 @@ func (h *Handle) Close() error {
 	// than use-after-close.
 	if h.Closes > 0 {
 		fs.viol("C05", "double-close", h.CreatedBy, "Close #%d on handle %d (%s, from %s)", h.Closes+1, h.ID, c.Path, h.CreatedBy)
-		h.Closes-- // keep begin() from reporting it a second time
-		defer func() { h.Closes++ }()
 	}
 	fs.begin(c)
 	defer fs.end(c)
